@@ -126,7 +126,7 @@ def detoured(draw, tree, frm, path, enabled):
 @st.composite
 def wirings(draw, max_procs=3, features=('dotdot', 'split', 'leaf', 'glob',
                                          'alias', 'output', 'deep',
-                                         'omit_port')):
+                                         'omit_port', 'glob_base')):
     tree, collections = draw(trees(want_collection='glob' in features
                                    and draw(st.booleans())))
     background = draw(st.booleans())
@@ -183,13 +183,21 @@ def wirings(draw, max_procs=3, features=('dotdot', 'split', 'leaf', 'glob',
                                         min_size=1, max_size=2, unique=True))
                 sub = {v: {'_default': 0} for v in subvars}
                 subtopo = {}
+                based = False
                 if has_inner and (background or 'subtopo_initial' in features) \
                         and draw(st.booleans()):
                     sub['zz'] = {'_default': 0}
                     subtopo['zz'] = ['inner', 'z']
+                    # the '*' dictionary may carry the last part of the way
+                    # to the collection as a '_path' of its own
+                    based = 'glob_base' in features and draw(st.booleans())
                 schema[port] = {'*': sub}
                 path = draw(detoured(tree, at, rel(at, G), det))
-                if subtopo:
+                if subtopo and based and path:
+                    k = draw(st.integers(0, len(path) - 1))
+                    topology[port] = {'_path': path[:k],
+                                      '*': dict(subtopo, _path=path[k:])}
+                elif subtopo:
                     topology[port] = {'_path': path, '*': subtopo}
                 else:
                     topology[port] = path
@@ -198,6 +206,7 @@ def wirings(draw, max_procs=3, features=('dotdot', 'split', 'leaf', 'glob',
                         W.append([[port, c, v], G + [c, v]])
                     if subtopo:
                         W.append([[port, c, 'zz'], G + [c, 'inner', 'z']])
+
                 globs.append({'view': [port], 'node': G,
                               'vars': sorted(sub)})
             else:
@@ -311,6 +320,8 @@ def labels(spec):
             for k, v in t.items():
                 if k == '*':
                     out.add('glob.subtopology')
+                    if isinstance(v, dict) and '_path' in v:
+                        out.add('glob.subtopology_with_path')
                 scan_topo(v)
         elif '..' in t:
             out.add('dotdot')
